@@ -149,7 +149,7 @@ def untraced(fn, *args):
     except ImportError:  # pragma: no cover
         return fn(*args)
     if not is_tracing():
-        return fn(*args)
+        return _no_livelock(fn, args)
     conc = []
     for a in args:
         if isinstance(a, bool):
@@ -159,4 +159,13 @@ def untraced(fn, *args):
         else:
             raise TypeError('untraced() takes selectors only')
     with NoTracing():
-        return fn(*conc)
+        return _no_livelock(fn, conc)
+
+
+def _no_livelock(fn, args):
+    """A task of the code under test that spins without ever blocking is reported as a clause, not as a crash."""
+    from vf.simenv.kernel import Livelock
+    try:
+        return fn(*args)
+    except Livelock as e:
+        return 'LIVELOCK: %s' % e
